@@ -4,7 +4,7 @@ import random
 from harness.checks import morph
 
 RULE = ("the lattice trees of C10, each concretised after one of six transformations - lattice rotation + translation, generic axis/angle rotation + "
-        "translation, renumbering (reversed / shuffled, root first), uniform scaling by 2 and by 0.37 (radii scaled too), and combinations - and every "
+        "translation, renumbering (reversed / shuffled, root first), uniform scaling by 2 and by 0.37 (radii scaled too), and combinations (a further pass scales by 10^-6 and by 3*10^4) - and every "
         "feature asked again: the judge is the same pose- and numbering-free specification, with lengths divided by the scale factor; volumes at the "
         "deterministic accuracy levels 1-4 are compared with the untransformed tree's volume times scale^3; non-trivial = at least 3 nodes and a "
         "furcation; distinct by (tree, transformation)")
@@ -32,6 +32,10 @@ def run(ctx):
         return morph.observe_derived(c, random.Random(lib.vid(c)))
     sub = cases if ctx.tier != "quick" else cases[::3]
     ctx.run_cases("derived-from-a-measured-tree", sub, path, execute_derived, "Judge_Morph", lambda c, o, w: w + ":derived", nontrivial, per_case_timeout=120)
+    def execute_extreme(c):
+        return morph.observe(c, 8 + ((lib.vid(c) // 4) % 2), random.Random(lib.vid(c)), with_volume=True)
+    sub = cases if ctx.tier != "quick" else cases[::4]
+    ctx.run_cases("extreme-scale-factors", sub, path, execute_extreme, "Judge_Morph", lambda c, o, w: w + ":scale-%s" % ("1e-6" if (lib.vid(c) // 4) % 2 == 0 else "3e4"), nontrivial, per_case_timeout=120)
     if ctx.tier != "quick":      # every tree under a second transformation
         def execute2(c):
             return morph.observe(c, 2 + ((c["motion"] + 3) % 6), random.Random(lib.vid(c)), with_volume=True)
@@ -49,5 +53,7 @@ def replay(ctx, rec):
     c = rec["case"]
     p = ctx.write_cases("replay", [c])
     ex = (lambda cc: morph.observe_derived(cc, random.Random(lib.vid(cc)))) if rec.get("stage", "").startswith("derived") else execute
+    if rec.get("stage", "").startswith("extreme"):
+        ex = lambda cc: morph.observe(cc, 8 + ((lib.vid(cc) // 4) % 2), random.Random(lib.vid(cc)), with_volume=True)
     ctx.run_cases("replay", [c], p, ex, "Judge_Morph", keyfn)
     return ctx.finish(rule="replay of one recorded case")
